@@ -80,3 +80,25 @@ Example C20_demo_order :
       (kexec_x unit demo_client 10 tt (loop_init 3 (Fin 0)))
   = [(Fin 0, 0, None); (Fin 0, 1, None); (Fin 0, 2, None); (Fin 0, 0, Some 7); (Fin 2, 1, Some 8)].
 Proof. exact demo_order. Qed.
+
+(** ** machine level: [postpone()] for an arbitrary machine state, activity and continuation requests exactly one
+    wake-up of the running activity for the CURRENT time step (appended behind everything already queued),
+    hibernates, and continues only when resumed by it -- so by [C20_postpone_lets_others_run] every activity
+    that was runnable before runs first *)
+From Coq Require Import List.
+From RecordUpdate Require Import RecordSet.
+From Usim Require Import Machine MachineProps Lib WaitSpecs.
+Import ListNotations.
+Theorem C20_postpone_requests_one_wakeup_now :
+  forall k a m st,
+    exec (12 + k) a m (MRun postpone) {| c_aid := a; c_stack := st |} []
+    = asleep m a [KNow a (Some (length (sigs (ob m))))] st.
+Proof. exact postpone_sleeps. Qed.
+Print Assumptions C20_postpone_requests_one_wakeup_now.
+
+Theorem C20_wakeup_is_queued_last :
+  forall l t s b,
+    In b (queued (kapply l (KNow t s))) ->
+    In b (queued l) \/ (a_tgt b = t /\ a_sig b = s /\ a_due b = now l /\ a_seq b = nseq l).
+Proof. exact know_due. Qed.
+Print Assumptions C20_wakeup_is_queued_last.
